@@ -146,9 +146,11 @@ def _state_names(node):
     raise ValueError("unsupported requires_state argument: " + ast.dump(node))
 
 
-def _events(fn):
+def _events(fn, state_attr="_state", process_attr="_process"):
     """Linearised life-cycle skeleton of a method body in source order:
-    try{ ... }  handler:<Exc|*>{ ... }  else{ ... }  assign:<STATE>  call:<self method>  raise  raise:<Exc>."""
+    try{ ... }  handler:<Exc|*>{ ... }  else{ ... }  assign:<STATE>  call:<self method>  raise  raise:<Exc>.
+    Normal form: an `else:` of a `try` whose handlers all end in `raise` is the same as the statements after the `try`;
+    `if a: if b: X` (no else branches) is the same as `if a and b: X`."""
     out = []
     interesting_calls = {"clean_up", "cancel", "evaluate", "run", "kill", "is_finished", "get_app_state"}
 
@@ -162,7 +164,7 @@ def _events(fn):
                         out.append("call:" + f.attr)
                     elif (isinstance(base, ast.Call) and isinstance(base.func, ast.Name) and base.func.id == "super"):
                         out.append("super:" + f.attr)
-                    elif isinstance(base, ast.Attribute) and base.attr == "_process":
+                    elif isinstance(base, ast.Attribute) and base.attr == process_attr:
                         out.append("proc:" + f.attr)
                 if isinstance(f, ast.Name) and f.id in ("Popen", "chdir", "cleanup_tempfile"):
                     out.append("call:" + f.id)
@@ -181,7 +183,9 @@ def _events(fn):
                     out.append("handler:" + (ast.unparse(h.type) if h.type is not None else "*") + "{")
                     walk(h.body)
                     out.append("}")
-                if st.orelse:
+                if st.orelse and st.handlers and all(h.body and isinstance(h.body[-1], ast.Raise) for h in st.handlers) and not st.finalbody:
+                    walk(st.orelse)                    # every handler re-raises: the else block simply follows
+                elif st.orelse:
                     out.append("else{")
                     walk(st.orelse)
                     out.append("}")
@@ -190,14 +194,27 @@ def _events(fn):
                     walk(st.finalbody)
                     out.append("}")
             elif isinstance(st, (ast.If, ast.While)):
+                mark = len(out)
                 out.append(("if" if isinstance(st, ast.If) else "while") + "{")
                 expr_calls(st.test)
+                while (isinstance(st, ast.If) and not st.orelse and len(st.body) == 1 and isinstance(st.body[0], ast.If)
+                       and not st.body[0].orelse):
+                    st = st.body[0]                    # nested ifs without else = one conjunction
+                    expr_calls(st.test)
+                n_test = len(out)
                 walk(st.body)
+                body_empty = len(out) == n_test
                 out.append("}")
+                n_else = len(out)
                 if st.orelse:
                     out.append("else{")
                     walk(st.orelse)
                     out.append("}")
+                if body_empty and len(out) <= n_else + (2 if st.orelse else 0):
+                    # only the test has life-cycle events (`if self.get_app_state() == FINISHED: break`): no block, just the events
+                    test_events = out[mark + 1:n_test]
+                    del out[mark:]
+                    out.extend(test_events)
             elif isinstance(st, ast.With):
                 walk(st.body)
             elif isinstance(st, ast.Raise):
@@ -207,7 +224,7 @@ def _events(fn):
                     f = st.exc.func if isinstance(st.exc, ast.Call) else st.exc
                     out.append("raise:" + ast.unparse(f))
             elif (isinstance(st, ast.Assign) and len(st.targets) == 1 and isinstance(st.targets[0], ast.Attribute)
-                  and st.targets[0].attr == "_state"):
+                  and st.targets[0].attr == state_attr):
                 out.append("assign:" + _state_names(st.value)[0])
             else:
                 expr_calls(st)
@@ -228,6 +245,7 @@ def _events(fn):
 def extract_tables(src_root):
     """{class: {"bases": [...], "methods": {name: guard-or-None}, "assigns": {name: [...]}, "skeleton": {name: [...]}}}"""
     classes = {}
+    inv_roles = {v: k for k, v in discover_roles(src_root).items()}
     # every class that (transitively) derives from Application, in any file of the package named above
     nodes = []
     for rel in ANCHOR_FILES:
@@ -275,7 +293,7 @@ def extract_tables(src_root):
                     info["tempfiles"] = sum(1 for n in ast.walk(fn) if isinstance(n, ast.Call) and (
                         (isinstance(n.func, ast.Name) and n.func.id == "NamedTemporaryFile")
                         or (isinstance(n.func, ast.Attribute) and n.func.attr == "NamedTemporaryFile")))
-                ev = _events(fn)
+                ev = _events(fn, inv_roles.get("STATE", "_state"), inv_roles.get("PROCESS", "_process"))
                 asg = [e[7:] for e in ev if e.startswith("assign:")]
                 if asg:
                     info["assigns"][fn.name] = asg
@@ -302,15 +320,14 @@ def extract_tables(src_root):
     dec = next((n for n in tree.body if isinstance(n, ast.FunctionDef) and n.name == "requires_state"), None)
     if dec is None:
         raise ValueError("requires_state not found")
-    wrapper = next((n for n in ast.walk(dec) if isinstance(n, ast.FunctionDef) and n.name == "wrapper"), None)
+    wrapper = next((n for n in ast.walk(dec) if isinstance(n, ast.FunctionDef) and n is not dec
+                    and any(isinstance(r, ast.Raise) for r in n.body + [x for st in n.body for x in ast.walk(st)])
+                    and not any(isinstance(x, ast.FunctionDef) for st in n.body for x in ast.walk(st))), None)
     if wrapper is None:
-        raise ValueError("requires_state.wrapper not found")
+        raise ValueError("requires_state: the innermost wrapper function (the one that raises) not found")
     polls = any(isinstance(n, ast.Call) and isinstance(n.func, ast.Attribute) and n.func.attr in ("get_app_state", "is_finished")
                 for n in ast.walk(wrapper))
-    test_ok = any(isinstance(n, ast.If) and ast.unparse(n.test).replace(" ", "") == "notinstance._state&app_state"
-                  for n in ast.walk(wrapper))
-    if not test_ok:
-        raise ValueError("requires_state guard `if not instance._state & app_state` not found")
+    # (the condition under which it refuses is pinned structurally by the fact `requires_state.refuses-when`)
     return classes, polls
 
 
@@ -387,10 +404,212 @@ def extract_mapping(src_root):
                           ast.unparse(n.value) == "sequence.code" for n in ast.walk(fn))
     return letters, type(tests[0].ops[0]).__name__, code_taken_over
 
+# ---- structural helpers (pass 8): facts are found by what the code does, names of locals / private attributes / private
+# ---- helpers are normalised away, messages and docstrings are never looked at
+_FLIP = {ast.Is: ast.IsNot, ast.IsNot: ast.Is, ast.Eq: ast.NotEq, ast.NotEq: ast.Eq, ast.Lt: ast.GtE, ast.GtE: ast.Lt,
+         ast.Gt: ast.LtE, ast.LtE: ast.Gt, ast.In: ast.NotIn, ast.NotIn: ast.In}
+
+
+def _atoms(test, negate=False):
+    """A test as a list of atomic condition nodes (conjunction); `negate` gives the atoms of its negation where that is
+    again a conjunction (single comparison, `not x`, disjunction), else one `not (...)` atom."""
+    if not negate:
+        if isinstance(test, ast.BoolOp) and isinstance(test.op, ast.And):
+            return [a for v in test.values for a in _atoms(v)]
+        if isinstance(test, ast.UnaryOp) and isinstance(test.op, ast.Not):
+            return _atoms(test.operand, True)
+        return [test]
+    if isinstance(test, ast.UnaryOp) and isinstance(test.op, ast.Not):
+        return _atoms(test.operand)
+    if isinstance(test, ast.Compare) and len(test.ops) == 1 and type(test.ops[0]) in _FLIP:
+        return [ast.Compare(left=test.left, ops=[_FLIP[type(test.ops[0])]()], comparators=test.comparators)]
+    if isinstance(test, ast.BoolOp) and isinstance(test.op, ast.Or):
+        return [a for v in test.values for a in _atoms(v, True)]
+    return [ast.UnaryOp(op=ast.Not(), operand=test)]
+
+
+def _exits(stmts):
+    return bool(stmts) and isinstance(stmts[-1], (ast.Continue, ast.Break, ast.Return, ast.Raise))
+
+
+def _path_conditions(stmts, is_target, conds=()):
+    """Atomic conditions (AST nodes) under which the first statement satisfying `is_target` is reached: tests of the enclosing
+    `if` / `while`, negated tests of earlier guard clauses (`if c: continue|break|return|raise`) in the same block."""
+    conds = list(conds)
+    for st in stmts:
+        if is_target(st):
+            return conds
+        if isinstance(st, ast.If):
+            r = _path_conditions(st.body, is_target, conds + _atoms(st.test))
+            if r is not None:
+                return r
+            r = _path_conditions(st.orelse, is_target, conds + _atoms(st.test, True))
+            if r is not None:
+                return r
+            if _exits(st.body) and not st.orelse:
+                conds += _atoms(st.test, True)
+            elif st.orelse and _exits(st.orelse) and not _exits(st.body):
+                conds += _atoms(st.test)
+        elif isinstance(st, ast.While):
+            extra = [] if (isinstance(st.test, ast.Constant) and st.test.value is True) else _atoms(st.test)
+            r = _path_conditions(st.body, is_target, conds + extra)
+            if r is not None:
+                return r
+        elif isinstance(st, (ast.For, ast.With)):
+            r = _path_conditions(st.body, is_target, conds)
+            if r is not None:
+                return r
+        elif isinstance(st, ast.Try):
+            for block in [st.body] + [h.body for h in st.handlers] + [st.orelse, st.finalbody]:
+                r = _path_conditions(block, is_target, conds)
+                if r is not None:
+                    return r
+    return None
+
+
+def _contains(st, pred):
+    return any(pred(n) for n in ast.walk(st))
+
+
+class _Renamer(ast.NodeTransformer):
+    def __init__(self, locals_map, attr_map):
+        self.l, self.a = locals_map, attr_map
+
+    def visit_Name(self, node):
+        return ast.copy_location(ast.Name(id=self.l.get(node.id, node.id), ctx=node.ctx), node)
+
+    def visit_Attribute(self, node):
+        on_object = isinstance(node.value, ast.Name) and node.attr in self.a and node.attr.startswith("_")
+        self.generic_visit(node)
+        if on_object:          # `self._x` / `instance._x` / `app._x`: the private attribute is written as its role
+            return ast.copy_location(ast.Attribute(value=node.value, attr=self.a[node.attr], ctx=node.ctx), node)
+        return node
+
+
+def _locals_in_order(fn):
+    """Parameters (without self) then local variables of a function in order of first binding: name -> p<k> / v<k>."""
+    import copy
+    m = {}
+    for k, a in enumerate([a for a in fn.args.posonlyargs + fn.args.args + fn.args.kwonlyargs if a.arg not in ("self", "cls")]):
+        m[a.arg] = f"p{k}"
+    seen = []
+
+    class V(ast.NodeVisitor):
+        def visit_Name(self, node):
+            if isinstance(node.ctx, ast.Store) and node.id not in m and node.id not in seen:
+                seen.append(node.id)
+
+        def visit_FunctionDef(self, node):
+            if node is fn:
+                self.generic_visit(node)
+
+    V().visit(copy.deepcopy(fn) if False else fn)
+    for k, name in enumerate(seen):
+        m[name] = f"v{k}"
+    return m
+
+
+def _norm(node, fn, roles):
+    """`ast.unparse` of a node with locals / parameters renamed positionally and private attributes replaced by their roles."""
+    import copy
+    return ast.unparse(ast.fix_missing_locations(_Renamer(_locals_in_order(fn), roles).visit(copy.deepcopy(node))))
+
+
+def discover_roles(src_root):
+    """Private attribute names by what they are used for (so that a rename of `_exec_dir`, `_process`, … changes nothing)."""
+    app = os.path.join(src_root, "biotite", "application")
+
+    def cls(rel, name):
+        t = ast.parse(open(os.path.join(app, rel)).read())
+        c = next((n for n in t.body if isinstance(n, ast.ClassDef) and n.name == name), None)
+        if c is None:
+            raise ValueError(f"class {name} not found")
+        return c
+
+    def fn(c, name):
+        f = next((n for n in c.body if isinstance(n, ast.FunctionDef) and n.name == name), None)
+        if f is None:
+            raise ValueError(f"{c.name}.{name} not found")
+        return f
+
+    def self_attr(node):
+        return node.attr if (isinstance(node, ast.Attribute) and isinstance(node.value, ast.Name) and node.value.id == "self") else None
+
+    def assigned(f, value_pred):
+        for n in ast.walk(f):
+            if isinstance(n, ast.Assign) and len(n.targets) == 1 and self_attr(n.targets[0]) and value_pred(n.value):
+                return self_attr(n.targets[0])
+        return None
+
+    def first_store(f):
+        for n in f.body:
+            for t in ([n.target] if isinstance(n, ast.AugAssign) else n.targets if isinstance(n, ast.Assign) else []):
+                if self_attr(t):
+                    return self_attr(t)
+        return None
+
+    A, L, M = cls("application.py", "Application"), cls("localapp.py", "LocalApp"), cls("msaapp.py", "MSAApp")
+    roles = {}
+
+    def put(attr, role, what):
+        if attr is None:
+            raise ValueError(f"cannot find the private attribute that {what}")
+        roles[attr] = role
+
+    put(assigned(fn(A, "__init__"), lambda v: ast.unparse(v) == "AppState.CREATED"), "STATE", "holds the AppState")
+    put(assigned(fn(A, "start"), lambda v: ast.unparse(v) == "time.time()"), "START_TIME", "holds the start time")
+    run = fn(L, "run")
+    put(assigned(run, lambda v: isinstance(v, ast.Call) and ast.unparse(v.func) == "Popen"), "PROCESS", "holds the Popen object")
+    popen = next((n for n in ast.walk(run) if isinstance(n, ast.Call) and ast.unparse(n.func) == "Popen"), None)
+    put(self_attr(popen.args[0]) if popen.args else None, "COMMAND", "is passed to Popen as the command")
+    put(next((self_attr(k.value) for k in popen.keywords if k.arg == "stdin"), None), "STDIN", "is passed to Popen as stdin")
+    init = fn(L, "__init__")
+    params = [a.arg for a in init.args.args if a.arg != "self"]
+    put(assigned(init, lambda v: isinstance(v, ast.Name) and params and v.id == params[0]), "BIN_PATH", "stores the bin_path parameter")
+    put(first_store(fn(L, "set_arguments")), "ARGUMENTS", "set_arguments() stores")
+    put(first_store(fn(L, "add_additional_options")), "OPTIONS", "add_additional_options() extends")
+    put(first_store(fn(L, "set_exec_dir")), "EXEC_DIR", "set_exec_dir() stores")
+    if roles.get(first_store(fn(L, "set_stdin"))) != "STDIN":
+        raise ValueError("set_stdin() does not store the attribute that is passed to Popen as stdin")
+    minit = fn(M, "__init__")
+    mparams = [a.arg for a in minit.args.args if a.arg != "self"]
+    seqattr = None
+    for n in minit.body:
+        if isinstance(n, ast.Assign) and self_attr(n.targets[0]) and isinstance(n.value, ast.Name) and n.value.id == mparams[0]:
+            seqattr = self_attr(n.targets[0])
+    put(seqattr, "SEQUENCES", "stores the sequences parameter")
+
+    def returned(f):
+        r = next((n for n in f.body if isinstance(n, ast.Return)), None)
+        return self_attr(r.value) if r is not None else None
+    put(returned(fn(M, "get_alignment")), "ALIGNMENT", "get_alignment() returns")
+    put(returned(fn(M, "get_alignment_order")), "ORDER", "get_alignment_order() returns")
+    put(returned(fn(L, "get_stdout")), "STDOUT", "get_stdout() returns")
+    put(returned(fn(L, "get_stderr")), "STDERR", "get_stderr() returns")
+    return roles
+
+
+_ROLE_CACHE = {}
+
+
+def private_name(role, default):
+    """Current name of a private attribute the adapter has to read (`_state`, `_process`), found structurally in the source."""
+    from common import paths
+    if paths.SRC not in _ROLE_CACHE:
+        try:
+            _ROLE_CACHE[paths.SRC] = {v: k for k, v in discover_roles(paths.SRC).items()}
+        except Exception:  # noqa: BLE001
+            _ROLE_CACHE[paths.SRC] = {}
+    return _ROLE_CACHE[paths.SRC].get(role, default)
+
+
 def extract_facts(src_root):
     """Literals and structural facts of the anchored source the hand-written model hard-codes, as an ordered list of
-    (key, value) strings (Python `ast`; a missing / reshaped construct raises: that is a broken tie, never a guess)."""
+    (key, value) strings.  Found structurally (Python `ast`): locals and parameters are renamed positionally, private
+    attributes are written as the role they play, private helper methods are looked through, messages / docstrings /
+    formatting never matter; a construct that cannot be found raises (a broken tie, never a guess)."""
     app = os.path.join(src_root, "biotite", "application")
+    roles = discover_roles(src_root)
 
     def parse(rel):
         return ast.parse(open(os.path.join(app, rel)).read())
@@ -417,9 +636,49 @@ def extract_facts(src_root):
         out += [f"{arg.arg}={u(d)}" for arg, d in zip(a.kwonlyargs, a.kw_defaults) if d is not None]
         return ",".join(out)
 
-    def single_if(fn, where=None):
-        ifs = [n for n in (where if where is not None else fn.body) if isinstance(n, ast.If)]
-        return ifs
+    def conds(fn, is_target, what):
+        c = _path_conditions(fn.body, is_target)
+        if c is None:
+            raise ValueError(f"{what}: statement not found")
+        return " & ".join(sorted(_norm(x, fn, roles) for x in c))
+
+    def exc_of(node):
+        r = next((r for r in ast.walk(node) if isinstance(r, ast.Raise) and r.exc is not None), None)
+        return u(r.exc.func if isinstance(r.exc, ast.Call) else r.exc) if r is not None else "?"
+
+    def inline_helpers(c, expr):
+        """`self._helper()` -> the expression that private zero-argument helper returns."""
+        if isinstance(expr, ast.Call) and isinstance(expr.func, ast.Attribute) and isinstance(expr.func.value, ast.Name) \
+                and expr.func.value.id == "self" and expr.func.attr.startswith("_") and not expr.args and not expr.keywords:
+            h = next((n for n in c.body if isinstance(n, ast.FunctionDef) and n.name == expr.func.attr), None)
+            rets = [n for n in ast.walk(h) if isinstance(n, ast.Return)] if h is not None else []
+            if len(rets) == 1 and rets[0].value is not None:
+                return rets[0].value, h
+        return expr, None
+
+    def raises_in_order(c, f, depth=0):
+        """Exception classes raised in source order, looking through private helpers of the same class."""
+        out = []
+        for n in ast.walk(ast.Module(body=f.body, type_ignores=[])) if False else _ordered(f):
+            if isinstance(n, ast.Raise) and n.exc is not None:
+                out.append(u(n.exc.func if isinstance(n.exc, ast.Call) else n.exc))
+            elif isinstance(n, ast.Call) and isinstance(n.func, ast.Attribute) and isinstance(n.func.value, ast.Name) \
+                    and n.func.value.id in ("self", "cls") and n.func.attr.startswith("_") and not n.func.attr.startswith("__") and depth < 2:
+                h = next((x for x in c.body if isinstance(x, ast.FunctionDef) and x.name == n.func.attr), None)
+                if h is not None:
+                    out += raises_in_order(c, h, depth + 1)
+        return out
+
+    def _ordered(f):
+        res = []
+
+        class V(ast.NodeVisitor):
+            def generic_visit(self, node):
+                res.append(node)
+                super().generic_visit(node)
+        for st in f.body:
+            V().visit(st)
+        return res
 
     facts = []
     add = lambda k, v: facts.append((k, str(v)))     # noqa: E731
@@ -431,23 +690,32 @@ def extract_facts(src_root):
     for exc in ("AppStateError", "TimeoutError", "VersionError"):
         add(f"{exc}.bases", ",".join(u(b) for b in cls_of(t, exc).bases))
     A = cls_of(t, "Application")
-    add("Application.join.defaults", defaults(fn_of(A, "join")))
-    loop = next((n for n in fn_of(A, "join").body if isinstance(n, ast.While)), None)
-    if loop is None:
-        raise ValueError("Application.join: poll loop not found")
-    add("Application.join.loop-test", u(loop.test))
-    tif = single_if(None, loop.body)
-    if len(tif) != 1:
-        raise ValueError("Application.join: expected one `if` in the poll loop")
-    add("Application.join.timeout-test", u(tif[0].test))
+    join = fn_of(A, "join")
+    add("Application.join.defaults", defaults(join))
+    is_cancel = lambda st: isinstance(st, ast.Expr) and u(st.value) == "self.cancel()"     # noqa: E731
+    add("Application.join.cancels-when", conds(join, is_cancel, "Application.join: self.cancel()"))
+    add("Application.join.then-raises", exc_of(next(st for st in _ordered(join) if isinstance(st, ast.Raise) and st.exc is not None)))
     gas = fn_of(A, "get_app_state")
-    add("Application.get_app_state.tests", " / ".join(u(n.test) for n in ast.walk(gas) if isinstance(n, ast.If)))
+    is_fin = lambda st: isinstance(st, ast.Assign) and u(st.value) == "AppState.FINISHED"     # noqa: E731
+    add("Application.get_app_state.finished-when", conds(gas, is_fin, "get_app_state: assignment of FINISHED"))
+    dec = fn_of(t, "requires_state")
+    wrapper = next((n for n in ast.walk(dec) if isinstance(n, ast.FunctionDef) and n.name != "decorator" and n is not dec
+                    and any(isinstance(r, ast.Raise) for r in ast.walk(n))), None)
+    if wrapper is None:
+        raise ValueError("requires_state: inner wrapper not found")
+    is_state_err = lambda st: isinstance(st, ast.Raise) and st.exc is not None and "AppStateError" in u(st.exc)[:14]     # noqa: E731
+    c = _path_conditions(wrapper.body, is_state_err)
+    if c is None:
+        raise ValueError("requires_state: raise AppStateError not found")
+    # (only the conditions on the state: whether a missing `self` is detected by try/except or by a length test is immaterial)
+    add("requires_state.refuses-when", " & ".join(sorted(x for x in (_norm(y, wrapper, roles) for y in c) if ".STATE" in x)))
 
     # ---- localapp.py
     t = parse("localapp.py")
     L = cls_of(t, "LocalApp")
+    inv = {v: k for k, v in roles.items()}
     add("LocalApp.__init__.exec_dir", next((u(n.value) for n in ast.walk(fn_of(L, "__init__")) if isinstance(n, ast.Assign)
-                                            and u(n.targets[0]) == "self._exec_dir"), "?"))
+                                            and u(n.targets[0]) == "self." + inv["EXEC_DIR"]), "?"))
     run = fn_of(L, "run")
     first = run.body[0]
     if not (isinstance(first, ast.Assign) and u(first.value) == "getcwd()" and isinstance(first.targets[0], ast.Name)):
@@ -457,29 +725,34 @@ def extract_facts(src_root):
     if tr is None or not tr.finalbody:
         raise ValueError("LocalApp.run: try/finally not found")
     fin = [u(n) for n in tr.finalbody]
-    add("LocalApp.run.restores", "the directory read at entry" if fin == [f"chdir({saved})"] else "; ".join(fin))
-    add("LocalApp.run.chdir-to", next((u(n.value.args[0]) for n in run.body if isinstance(n, ast.Expr) and isinstance(n.value, ast.Call)
-                                      and u(n.value.func) == "chdir"), "?"))
-    add("LocalApp.run.command", next((u(n.value) for n in ast.walk(run) if isinstance(n, ast.Assign)
-                                     and u(n.targets[0]) == "self._command"), "?"))
-    add("LocalApp.join.defaults", defaults(fn_of(L, "join")))
-    comm = [u(n) for n in ast.walk(fn_of(L, "join")) if isinstance(n, ast.Call) and isinstance(n.func, ast.Attribute)
-            and n.func.attr in ("communicate", "wait", "poll")]
-    add("LocalApp.join.process-calls", " / ".join(comm))
+    add("LocalApp.run.restores", "the directory read at entry" if fin == [f"chdir({saved})"] else "; ".join(_norm(n, run, roles) for n in tr.finalbody))
+    add("LocalApp.run.chdir-to", next((_norm(n.value.args[0], run, roles) for n in run.body if isinstance(n, ast.Expr)
+                                      and isinstance(n.value, ast.Call) and u(n.value.func) == "chdir"), "?"))
+    cmd = next((n.value for n in ast.walk(run) if isinstance(n, ast.Assign) and u(n.targets[0]) == "self." + inv["COMMAND"]), None)
+    if cmd is None:
+        raise ValueError("LocalApp.run: the command is not assigned")
+    cmd, helper = inline_helpers(L, cmd)
+    add("LocalApp.run.command", _norm(cmd, helper or run, roles))
+    lj = fn_of(L, "join")
+    add("LocalApp.join.defaults", defaults(lj))
+    add("LocalApp.join.process-calls", " / ".join(_norm(n, lj, roles) for n in _ordered(lj) if isinstance(n, ast.Call)
+                                                 and isinstance(n.func, ast.Attribute) and n.func.attr in ("communicate", "wait", "poll")))
     ev = fn_of(L, "evaluate")
-    eif = single_if(ev)
-    if len(eif) != 1 or not isinstance(eif[0].test, ast.Compare):
-        raise ValueError("LocalApp.evaluate: expected one `if exit_code <op> <const>`")
-    if not (len(eif[0].test.ops) == 1 and isinstance(eif[0].test.comparators[0], ast.Constant)):
-        raise ValueError("LocalApp.evaluate: exit-code test is not `<name> <op> <constant>`")
+    eif = [n for n in ev.body if isinstance(n, ast.If)]
+    if len(eif) != 1 or not isinstance(eif[0].test, ast.Compare) or not (
+            len(eif[0].test.ops) == 1 and isinstance(eif[0].test.comparators[0], ast.Constant)):
+        raise ValueError("LocalApp.evaluate: expected one `if <exit code> <op> <constant>`")
     add("LocalApp.evaluate.fail-op", type(eif[0].test.ops[0]).__name__)
     add("LocalApp.evaluate.fail-const", u(eif[0].test.comparators[0]))
-    add("LocalApp.evaluate.raises", next((u(n.exc.func) for n in ast.walk(eif[0]) if isinstance(n, ast.Raise) and isinstance(n.exc, ast.Call)), "?"))
+    add("LocalApp.evaluate.raises", exc_of(eif[0]))
     cu = fn_of(L, "clean_up")
-    cif = single_if(cu)
-    add("LocalApp.clean_up.test", u(cif[0].test) if len(cif) == 1 else "?")
-    add("LocalApp.clean_up.action", "; ".join(u(n) for n in cif[0].body) if len(cif) == 1 else "?")
-    add("LocalApp.is_finished.calls", " / ".join(u(n) for n in ast.walk(fn_of(L, "is_finished")) if isinstance(n, ast.Call)))
+    is_kill = lambda st: isinstance(st, ast.Expr) and isinstance(st.value, ast.Call) and isinstance(st.value.func, ast.Attribute) \
+        and roles.get(getattr(st.value.func.value, "attr", None)) == "PROCESS"     # noqa: E731
+    add("LocalApp.clean_up.when", conds(cu, is_kill, "LocalApp.clean_up: call on the process"))
+    add("LocalApp.clean_up.action", next(_norm(st, cu, roles) for st in _ordered(cu) if is_kill(st)))
+    isf = fn_of(L, "is_finished")
+    add("LocalApp.is_finished.calls", " / ".join(_norm(n, isf, roles) for n in _ordered(isf) if isinstance(n, ast.Call)
+                                                and isinstance(n.func, ast.Attribute) and roles.get(getattr(n.func.value, "attr", None)) == "PROCESS"))
     add("get_version.defaults", defaults(fn_of(t, "get_version")))
     ct = fn_of(t, "cleanup_tempfile")
     add("cleanup_tempfile.tolerates", ",".join(u(h.type) for n in ast.walk(ct) if isinstance(n, ast.Try) for h in n.handlers))
@@ -491,38 +764,63 @@ def extract_facts(src_root):
     M = cls_of(t, "MSAApp")
     init = fn_of(M, "__init__")
     add("MSAApp.__init__.defaults", defaults(init))
-    checks = []
-    for n in init.body:
-        if isinstance(n, (ast.If, ast.For)):
-            for r in ast.walk(n):
-                if isinstance(r, ast.Raise) and isinstance(r.exc, ast.Call):
-                    checks.append(u(r.exc.func))
-            if isinstance(n, ast.If) and len(checks) == 1 and "first" not in dict(facts):
-                pass
     first_if = next((n for n in init.body if isinstance(n, ast.If)), None)
     if not (first_if is not None and isinstance(first_if.test, ast.Compare) and len(first_if.test.ops) == 1):
         raise ValueError("MSAApp.__init__: first check is not a comparison")
-    add("MSAApp.__init__.first-check", u(first_if.test.left) + " " + type(first_if.test.ops[0]).__name__ + " " + u(first_if.test.comparators[0]))
-    add("MSAApp.__init__.raises-in-order", ",".join(checks))
+    add("MSAApp.__init__.first-check", _norm(first_if.test.left, init, roles) + " " + type(first_if.test.ops[0]).__name__ + " " + u(first_if.test.comparators[0]))
+    add("MSAApp.__init__.raises-in-order", ",".join(raises_in_order(M, init)))
     add("MSAApp.__init__.tempfile-suffixes", ",".join(next((u(k.value) for k in n.keywords if k.arg == "suffix"), "?")
-                                                     for n in ast.walk(init) if isinstance(n, ast.Call) and u(n.func) == "NamedTemporaryFile"))
+                                                     for n in _ordered(init) if isinstance(n, ast.Call) and u(n.func) == "NamedTemporaryFile"))
     ev = fn_of(M, "evaluate")
-    loops = [n for n in ev.body if isinstance(n, ast.For)]
-    if len(loops) != 2:
-        raise ValueError("MSAApp.evaluate: expected two for-loops (rows by index, order)")
-    add("MSAApp.evaluate.row-loop", f"for {u(loops[0].target)} in {u(loops[0].iter)}")
-    add("MSAApp.evaluate.row-lookup", next((u(n) for n in loops[0].body if isinstance(n, ast.Assign)), "?"))
-    lif = [n for n in loops[0].body if isinstance(n, ast.If)]
-    add("MSAApp.evaluate.length-check-in-loop", u(lif[0].test) if len(lif) == 1 else "MISSING")
-    add("MSAApp.evaluate.length-check-raises", next((u(r.exc.func) for n in lif for r in ast.walk(n) if isinstance(r, ast.Raise) and isinstance(r.exc, ast.Call)), "?"))
-    add("MSAApp.evaluate.order-loop", f"for {u(loops[1].target)} in {u(loops[1].iter)}: " + "; ".join(u(n) for n in loops[1].body))
-    add("MSAApp.evaluate.rows-size", next((u(n.value) for n in ev.body if isinstance(n, ast.Assign) and u(n.targets[0]) == "out_seq_str"), "?"))
-    add("MSAApp.run.names", next((u(n) for n in ast.walk(fn_of(M, "run")) if isinstance(n, ast.Assign) and isinstance(n.targets[0], ast.Subscript)
-                                  and u(n.targets[0].value) == "sequences_file"), "?"))
+    row_loop = next((n for n in ev.body if isinstance(n, ast.For) and any(
+        isinstance(x, ast.Assign) and isinstance(x.targets[0], ast.Subscript) and isinstance(x.value, ast.Subscript) for x in n.body)), None)
+    if row_loop is None:
+        raise ValueError("MSAApp.evaluate: the loop that picks the rows by index is not found")
+    add("MSAApp.evaluate.row-loop", f"for {_norm(row_loop.target, ev, roles)} in {_norm(row_loop.iter, ev, roles)}")
+    add("MSAApp.evaluate.row-lookup", next(_norm(n, ev, roles) for n in row_loop.body if isinstance(n, ast.Assign)
+                                           and isinstance(n.targets[0], ast.Subscript) and isinstance(n.value, ast.Subscript)))
+    # the per-row symbol-count check: inside the row loop, `<symbols of row i> != len(<sequences>[i])`, ValueError
+    lif = [n for n in row_loop.body if isinstance(n, ast.If) and isinstance(n.test, ast.Compare) and len(n.test.ops) == 1]
+    if len(lif) == 1:
+        env = {x.targets[0].id: x.value for x in row_loop.body if isinstance(x, ast.Assign) and isinstance(x.targets[0], ast.Name)}
+        sides = [env.get(sd.id, sd) if isinstance(sd, ast.Name) else sd for sd in (lif[0].test.left, lif[0].test.comparators[0])]
+        txt = [_norm(sd, ev, roles) for sd in sides]
+        counts = any(("replace('-', '')" in x or "count('-')" in x) for x in txt)
+        against = any(x.startswith("len(self.SEQUENCES[") for x in txt)
+        add("MSAApp.evaluate.length-check-in-loop", f"symbols of the row {type(lif[0].test.ops[0]).__name__} len(input)"
+            if counts and against else " vs ".join(txt))
+        add("MSAApp.evaluate.length-check-raises", exc_of(lif[0]))
+    else:
+        add("MSAApp.evaluate.length-check-in-loop", "MISSING")
+        add("MSAApp.evaluate.length-check-raises", "?")
+    # the order: element j of the ORDER attribute is int(j-th key of the dict of records) — loop or comprehension
+    order_ok = "?"
+    for n in _ordered(ev):
+        if isinstance(n, ast.For) and isinstance(n.iter, ast.Call) and u(n.iter.func) == "enumerate" and isinstance(n.target, ast.Tuple):
+            idx, key = (e.id for e in n.target.elts)
+            for x in n.body:
+                if isinstance(x, ast.Assign) and isinstance(x.targets[0], ast.Subscript) and roles.get(getattr(x.targets[0].value, "attr", None)) == "ORDER":
+                    order_ok = ("order[j] = int(key j)" if (u(x.targets[0].slice) == idx and u(x.value) == f"int({key})")
+                                else _norm(x, ev, roles)) + " over " + _norm(n.iter.args[0], ev, roles)
+        if isinstance(n, ast.Assign) and roles.get(getattr(n.targets[0], "attr", None)) == "ORDER":
+            comp = next((c for c in ast.walk(n.value) if isinstance(c, ast.ListComp)), None)
+            if comp is not None and len(comp.generators) == 1 and isinstance(comp.generators[0].target, ast.Name):
+                key = comp.generators[0].target.id
+                order_ok = ("order[j] = int(key j)" if u(comp.elt) == f"int({key})" else _norm(comp, ev, roles)) \
+                    + " over " + _norm(comp.generators[0].iter, ev, roles)
+    add("MSAApp.evaluate.order", order_ok)
+    add("MSAApp.evaluate.rows-size", next((_norm(n.value, ev, roles) for n in ev.body if isinstance(n, ast.Assign) and isinstance(n.value, ast.BinOp)
+                                           and isinstance(n.value.left, ast.List)), "?"))
+    mrun = fn_of(M, "run")
+    add("MSAApp.run.names", next((_norm(n, mrun, roles) for n in _ordered(mrun) if isinstance(n, ast.Assign) and isinstance(n.targets[0], ast.Subscript)
+                                  and isinstance(n.value, ast.Call) and u(n.value.func) == "str"), "?"))
     add("MSAApp.align.defaults", defaults(fn_of(M, "align")))
-    add("MSAApp.align.steps", " / ".join(u(n.value.func) if isinstance(n, ast.Expr) else "return " + u(n.value.func)
-                                         for n in fn_of(M, "align").body if isinstance(n, (ast.Expr, ast.Return)) and isinstance(n.value, ast.Call)))
-    add("MSAApp.get_matrix_file_path", next((u(n.value) for n in fn_of(M, "get_matrix_file_path").body if isinstance(n, ast.Return)), "?"))
+    al = fn_of(M, "align")
+    add("MSAApp.align.steps", " / ".join(n.func.attr for n in _ordered(al) if isinstance(n, ast.Call) and isinstance(n.func, ast.Attribute)
+                                         and n.func.attr in ("start", "join", "cancel", "get_alignment")))
+    add("MSAApp.get_matrix_file_path", "None unless a matrix was given" if any(
+        isinstance(n, ast.IfExp) and u(n.orelse) == "None" and "is not None" in u(n.test) for n in ast.walk(fn_of(M, "get_matrix_file_path")))
+        else u(fn_of(M, "get_matrix_file_path").body[-1]))
 
     # ---- the four MSA wrappers + tantan: defaults, option strings of the command line, version checks, evaluate guards
     def str_consts(fn):
@@ -539,26 +837,31 @@ def extract_facts(src_root):
         add(f"{cname}.run.options", str_consts(fn_of(C, "run")))
         if cname in ("MuscleApp", "Muscle5App"):
             i = fn_of(C, "__init__")
-            add(f"{cname}.version-probe", next((u(n.value) for n in i.body if isinstance(n, ast.Assign) and "get_version" in u(n.value)), "?"))
+            probe = next((n for n in _ordered(i) if isinstance(n, ast.Call) and u(n.func) == "get_version"), None)
+            if probe is None:
+                raise ValueError(f"{cname}.__init__: get_version(...) not called")
+            add(f"{cname}.version-probe", "get_version(" + ", ".join(_norm(a, i, roles) for a in probe.args) + ")")
             vif = next((n for n in i.body if isinstance(n, ast.If)), None)
             if not (vif is not None and isinstance(vif.test, ast.Compare) and len(vif.test.ops) == 1):
                 raise ValueError(f"{cname}.__init__: version test not found")
             add(f"{cname}.version-test", type(vif.test.ops[0]).__name__ + " " + u(vif.test.comparators[0]))
-            add(f"{cname}.version-raises", next((u(r.exc.func) for r in ast.walk(vif) if isinstance(r, ast.Raise) and isinstance(r.exc, ast.Call)), "?"))
-            add(f"{cname}.version-before-super", str([u(n)[:18] for n in i.body].index("super().__init__(s") > i.body.index(vif)))
+            add(f"{cname}.version-raises", exc_of(vif))
+            sup = next((k for k, n in enumerate(i.body) if "super().__init__" in u(n)), None)
+            add(f"{cname}.version-before-super", str(sup is not None and sup > i.body.index(vif)))
         if cname == "ClustalOmegaApp":
-            add("ClustalOmegaApp.evaluate.tests", " / ".join(u(n.test) for n in fn_of(C, "evaluate").body if isinstance(n, ast.If)))
-            add("ClustalOmegaApp.evaluate.distmat", next((u(n.value.func) + " skiprows=" + next((u(k.value) for k in n.value.keywords if k.arg == "skiprows"), "?")
-                                                         for n in ast.walk(fn_of(C, "evaluate")) if isinstance(n, ast.Assign) and isinstance(n.value, ast.Call)
-                                                         and "loadtxt" in u(n.value.func)), "?"))
-            add("ClustalOmegaApp.evaluate.distmat-columns", next((u(n.value) for n in ast.walk(fn_of(C, "evaluate")) if isinstance(n, ast.Assign)
-                                                                 and isinstance(n.value, ast.Subscript) and u(n.targets[0]) == "self._dist_matrix"), "?"))
+            cev = fn_of(C, "evaluate")
+            add("ClustalOmegaApp.evaluate.tests", " / ".join(u(n.test) for n in cev.body if isinstance(n, ast.If)))
+            add("ClustalOmegaApp.evaluate.distmat", next((u(n.func) + " skiprows=" + next((u(k.value) for k in n.keywords if k.arg == "skiprows"), "?")
+                                                         for n in _ordered(cev) if isinstance(n, ast.Call) and "loadtxt" in u(n.func)), "?"))
+            add("ClustalOmegaApp.evaluate.distmat-columns", next((u(n.slice) for n in _ordered(cev) if isinstance(n, ast.Subscript)
+                                                                 and isinstance(n.slice, ast.Tuple)), "?"))
             add("ClustalOmegaApp.get_distance_matrix.test", " / ".join(u(n.test) for n in fn_of(C, "get_distance_matrix").body if isinstance(n, ast.If)))
             add("ClustalOmegaApp.run.tests", " / ".join(u(n.test) for n in fn_of(C, "run").body if isinstance(n, ast.If)))
-            add("ClustalOmegaApp.super-matrix", next((u(n.value) for n in fn_of(C, "__init__").body if isinstance(n, ast.Expr) and "super().__init__" in u(n.value)), "?"))
+            sup = next((n for n in _ordered(fn_of(C, "__init__")) if isinstance(n, ast.Call) and u(n.func) == "super().__init__"), None)
+            add("ClustalOmegaApp.super-matrix", u(sup.args[-1]) if sup is not None and sup.args else "?")
         if cname == "MuscleApp":
             g = fn_of(C, "set_gap_penalty")
-            top = single_if(g)
+            top = [n for n in g.body if isinstance(n, ast.If)]
             if len(top) != 1:
                 raise ValueError("MuscleApp.set_gap_penalty: unexpected shape")
             branches = []
@@ -566,25 +869,30 @@ def extract_facts(src_root):
             while isinstance(node, ast.If):
                 body = node.body
                 kinds = ["check" if isinstance(b, ast.If) else "store" if isinstance(b, ast.Assign) else type(b).__name__.lower() for b in body]
-                tests = [u(b.test) for b in body if isinstance(b, ast.If)]
-                branches.append(f"[{u(node.test)}] " + ",".join(kinds) + " | " + " ; ".join(tests))
+                tests = [_norm(b.test, g, roles) for b in body if isinstance(b, ast.If)]
+                branches.append(f"[{_norm(node.test, g, roles)}] " + ",".join(kinds) + " | " + " ; ".join(tests))
                 node = node.orelse[0] if len(node.orelse) == 1 and isinstance(node.orelse[0], ast.If) else None
             add("MuscleApp.set_gap_penalty.branches", " || ".join(branches))
-            add("MuscleApp.get_guide_tree.defaults", defaults(fn_of(C, "get_guide_tree")))
-            add("MuscleApp.get_guide_tree.tests", " / ".join(u(n.test) + "->" + u(n.body[0]) for n in ast.walk(fn_of(C, "get_guide_tree")) if isinstance(n, ast.If)))
-            add("MuscleApp.run.gap-format", ",".join(sorted({u(v) for n in ast.walk(fn_of(C, "run")) if isinstance(n, ast.JoinedStr)
-                                                              for v in n.values if isinstance(v, ast.FormattedValue)})))
+            gt = fn_of(C, "get_guide_tree")
+            add("MuscleApp.get_guide_tree.defaults", defaults(gt))
+            add("MuscleApp.get_guide_tree.tests", " / ".join(_norm(n.test, gt, roles) + "->" + u(n.body[0]) for n in ast.walk(gt) if isinstance(n, ast.If)))
+            add("MuscleApp.run.gap-format", ",".join(sorted({v.format_spec.values[0].value for n in ast.walk(fn_of(C, "run")) if isinstance(n, ast.JoinedStr)
+                                                              for v in n.values if isinstance(v, ast.FormattedValue) and v.format_spec is not None})))
             add("MuscleApp.align.defaults", defaults(fn_of(C, "align")))
         if cname == "Muscle5App":
             add("Muscle5App.align.defaults", defaults(fn_of(C, "align")))
         if cname == "MafftApp":
-            pat = next((n for n in t.body if isinstance(n, ast.Assign) and u(n.targets[0]) == "_prefix_pattern"), None)
-            if pat is None or not (isinstance(pat.value, ast.Call) and pat.value.args and isinstance(pat.value.args[0], ast.Constant)):
-                raise ValueError("mafft/app.py: _prefix_pattern = re.compile(<literal>) not found")
-            add("MafftApp.prefix-pattern", pat.value.args[0].value)
-            add("MafftApp.tree-file", next((u(n.value) for n in ast.walk(fn_of(C, "__init__")) if isinstance(n, ast.Assign)
-                                           and u(n.targets[0]) == "self._out_tree_file_name"), "?"))
-            add("MafftApp.evaluate.first-step", u(fn_of(C, "evaluate").body[0]).split("\n")[0])
+            pat = next((n.value.args[0].value for n in t.body if isinstance(n, ast.Assign) and isinstance(n.value, ast.Call)
+                        and u(n.value.func) == "re.compile" and n.value.args and isinstance(n.value.args[0], ast.Constant)), None)
+            if pat is None:
+                raise ValueError("mafft/app.py: module-level re.compile(<literal>) not found")
+            add("MafftApp.prefix-pattern", pat)
+            add("MafftApp.tree-file", next((u(n.value) for n in _ordered(fn_of(C, "__init__")) if isinstance(n, ast.Assign)
+                                           and isinstance(n.value, ast.BinOp) and ".tree" in u(n.value)), "?"))
+            mev = fn_of(C, "evaluate")
+            first_super = next((k for k, n in enumerate(mev.body) if "super().evaluate()" in u(n)), None)
+            add("MafftApp.evaluate.writes-stdout-before-super", str(first_super is not None and any(
+                "get_stdout()" in u(n) and ".write(" in u(n) for n in mev.body[:first_super])))
         if cname == "TantanApp":
             add("TantanApp.matrix-file-created", next((u(n.test) for n in fn_of(C, "__init__").body if isinstance(n, ast.If)
                                                       and "NamedTemporaryFile" in u(n)), "?"))
@@ -598,18 +906,15 @@ def extract_facts(src_root):
     B = cls_of(t, "BlastWebApp")
     add("BlastWebApp.wait_interval", next((u(n.value) for n in fn_of(B, "wait_interval").body if isinstance(n, ast.Return)), "?"))
     add("BlastWebApp.__init__.defaults", defaults(fn_of(B, "__init__")))
-    runb = fn_of(B, "run")
-    order = [u(n.value.func) for n in runb.body if isinstance(n, (ast.Expr, ast.Assign)) and isinstance(n.value, ast.Call)
-             and u(n.value.func) in ("requests.get", "self._contact", "self._request")]
+    order = [u(n.func) for n in _ordered(fn_of(B, "run")) if isinstance(n, ast.Call) and u(n.func) in ("requests.get", "self._contact", "self._request")]
     add("BlastWebApp.run.order", ",".join(order))
-    add("BlastWebApp.is_finished.order", ",".join(u(n.value.func) for n in fn_of(B, "is_finished").body if isinstance(n, (ast.Expr, ast.Assign))
-                                                  and isinstance(n.value, ast.Call) and u(n.value.func) in ("requests.get", "self._contact")))
+    add("BlastWebApp.is_finished.order", ",".join(u(n.func) for n in _ordered(fn_of(B, "is_finished")) if isinstance(n, ast.Call)
+                                                  and u(n.func) in ("requests.get", "self._contact")))
     # ---- util.py
     t = parse("util.py")
     mm = fn_of(t, "map_matrix")
-    add("map_matrix.none-test", next((u(n.test) + "->" + next((u(r.exc.func) for r in ast.walk(n) if isinstance(r, ast.Raise)), "?")
-                                      for n in mm.body if isinstance(n, ast.If)), "?"))
-    add("map_matrix.corner", next((u(n) for n in mm.body if isinstance(n, ast.Assign) and isinstance(n.targets[0], ast.Subscript)), "?"))
+    add("map_matrix.none-test", next((_norm(n.test, mm, roles) + "->" + exc_of(n) for n in mm.body if isinstance(n, ast.If)), "?"))
+    add("map_matrix.corner", next((_norm(n, mm, roles) for n in mm.body if isinstance(n, ast.Assign) and isinstance(n.targets[0], ast.Subscript)), "?"))
     return facts
 
 
@@ -690,6 +995,16 @@ def gen_lean():
 
 
 # ---------------------------------------------------------------- implementation adapter
+def _state_of(app):
+    """The wrapper's AppState flag; the attribute's current name is taken from the source (role STATE)."""
+    return getattr(app, private_name("STATE", "_state"))
+
+
+def _proc_of(app):
+    """The wrapper's Popen object, if any (role PROCESS)."""
+    return getattr(app, private_name("PROCESS", "_process"), None)
+
+
 def _proc_state(pid):
     """'alive' | 'dead' (zombie or gone)."""
     try:
@@ -866,7 +1181,7 @@ class _Session:
     def child(self, wait_dead=False):
         if self.wrapper == "base":
             return self.stub_child
-        p = getattr(self.app, "_process", None)
+        p = _proc_of(self.app)
         if p is None:
             return "none"
         st = _proc_state(p.pid)
@@ -878,7 +1193,7 @@ class _Session:
         return st
 
     def observe(self):
-        st = self.app._state.name if self.app is not None else "NONE"
+        st = _state_of(self.app).name if self.app is not None else "NONE"
         return {"st": st,
                 "cwd": "same" if os.getcwd() == self.caller_cwd else "changed",
                 "files": len(os.listdir(self.tmpdir)),
@@ -1042,7 +1357,7 @@ class _Session:
             # unblock it: let the stub finish, open the gate, kill the child; then give up on the thread
             self.force_finish = True
             self.release()
-            p = getattr(self.app, "_process", None)
+            p = _proc_of(self.app)
             if p is not None:
                 try:
                     os.kill(p.pid, 9)
@@ -1055,7 +1370,7 @@ class _Session:
         return box["res"]
 
     def _wait_exit(self):
-        p = getattr(self.app, "_process", None)
+        p = _proc_of(self.app)
         if p is not None:
             end = time.time() + 10.0
             while _proc_state(p.pid) == "alive" and time.time() < end:
@@ -1082,14 +1397,14 @@ class _Session:
                 in_join = True
                 unbounded = w[1] == "-" or (w[1] == "inf" and self.wrapper == "base")
                 if unbounded:
-                    if app._state.name == "RUNNING" and self.tool in HANGS:
+                    if _state_of(app).name == "RUNNING" and self.tool in HANGS:
                         # join() without (effective) timeout on a program that never exits: the model says "diverges".
                         # In a `divergence` case (this is its last op) the real call is made and must indeed block.
                         if not self.run_divergence:
                             return "unmodelled"
                         r = self._join_watched(None if w[1] == "-" else float("inf"), 0.6, freeze=True)
                         return "unmodelled" if r == "hang-join" else r
-                    running = app._state.name == "RUNNING" and not self.released()
+                    running = _state_of(app).name == "RUNNING" and not self.released()
                     if running:
                         t = threading.Timer(0.02, self.release)
                         self.timers.append(t)
@@ -1170,7 +1485,7 @@ class _Session:
     def close(self):
         for t in self.timers:
             t.cancel()
-        p = getattr(self.app, "_process", None) if self.app is not None else None
+        p = _proc_of(self.app) if self.app is not None else None
         if p is not None:
             try:
                 os.kill(p.pid, 9)            # SIGKILL by pid: nothing may outlive the case, whatever clean_up() did
@@ -1275,7 +1590,7 @@ class _WebSession:
 
     def observe(self):
         B = self.B.BlastWebApp
-        return {"st": self.app._state.name, "now": int(self.now), "lc": int(B._last_contact), "lr": int(B._last_request),
+        return {"st": _state_of(self.app).name, "now": int(self.now), "lc": int(B._last_contact), "lr": int(B._last_request),
                 "k": self.k, "sent": self.sent, "cl": self.counter["n"]}
 
     def op(self, line):
@@ -2100,8 +2415,8 @@ def _oracle_cleanup_raises(case):
         pass
     except Exception as e:  # noqa: BLE001
         v.append(("C20/launch-failure/error-masked-by-clean_up", f"start() raised {type(e).__name__} instead of the launch error"))
-    if app._state.name != "CANCELLED" or len(entered) != 1:
-        v.append(("C20/leak/launch-failure/base", f"after the failed launch: state={app._state.name} clean_up entered {len(entered)}x"))
+    if _state_of(app).name != "CANCELLED" or len(entered) != 1:
+        v.append(("C20/leak/launch-failure/base", f"after the failed launch: state={_state_of(app).name} clean_up entered {len(entered)}x"))
     for name in ("start", "cancel", "join"):
         try:
             getattr(app, name)()
@@ -2140,9 +2455,9 @@ def _oracle_sra_eval_failure(case):
             v.append(("C20/result/failing-exit-accepted/sra", "join() succeeded although the shell command exited with 3"))
         except subprocess.SubprocessError:
             pass
-        if app._state.name != "CANCELLED" or len(entered) != 1 or app._process.poll() is None:
-            v.append(("C20/leak/exit-code/sra", f"after the failing exit: state={app._state.name}, clean_up entered {len(entered)}x, "
-                                                 f"child {'alive' if app._process.poll() is None else 'dead'}"))
+        if _state_of(app).name != "CANCELLED" or len(entered) != 1 or _proc_of(app).poll() is None:
+            v.append(("C20/leak/exit-code/sra", f"after the failing exit: state={_state_of(app).name}, clean_up entered {len(entered)}x, "
+                                                 f"child {'alive' if _proc_of(app).poll() is None else 'dead'}"))
         try:
             app.cancel()
             v.append(("C20/lifecycle/accepted-but-forbidden/cancel@CANCELLED", "cancel() accepted after the failed join"))
